@@ -166,6 +166,12 @@ func runRelay(r *core.Run) {
 		fw = append(fw, fwd{it, pdu, snap, out})
 		stream2 = append(stream2, out...)
 		ends2 = append(ends2, len(stream2))
+		// once forwarded, the relay does what it likes with the value it decoded (unless it keeps it as a receiver)
+		if !reuse {
+			ownerAdds(pdu)
+			fillSpare(pdu)
+			scribbleBytes(pdu)
+		}
 	}
 	if len(fw) == 0 {
 		return
